@@ -356,6 +356,17 @@ def execute(trace, ctx):
                     if not (k == DEF and cfg["union"]):
                         gotd = {tkey(t) for t in ds.triples_choices((None, ch, None), context=Graph(store, gt))}
                         ctx.check(gotd == ec, "C02.choices-context", lambda: f"{where}: ds.triples_choices((ANY, [p, q], ANY), context=<{k}>) missing={_srt(ec - gotd)} extra={_srt(gotd - ec)}", graph_empty=not real)
+                    # the list in the subject slot and in the object slot (an empty list stands for "any" by the store's design: not asked)
+                    for slot, terms in ((0, subs[:2]), (2, objs[:2])):
+                        lst = [T(x) for x in terms]
+                        patc = [None, None, None]
+                        patc[slot] = lst
+                        es = {t for t in real if t[slot] in {skey(x) for x in terms}}
+                        gots = {tkey(t) for t in Graph(store, gt).triples_choices(tuple(patc))}
+                        ctx.check(gots == es, "C02.choices-view", lambda: f"{where}: view of <{k}>.triples_choices with a list of {len(lst)} in slot {slot}: missing={_srt(es - gots)} extra={_srt(gots - es)}", graph_empty=not real, slot=slot)
+                        if not (k == DEF and cfg["union"]):
+                            gots2 = {tkey(t) for t in ds.triples_choices(tuple(patc), context=Graph(store, gt))}
+                            ctx.check(gots2 == es, "C02.choices-context", lambda: f"{where}: ds.triples_choices(list of {len(lst)} in slot {slot}, context=<{k}>) missing={_srt(es - gots2)} extra={_srt(gots2 - es)}", graph_empty=not real, slot=slot)
                 gotq = {tkey((s, p, o)) + (norm_ctx(c),) for s, p, o, c in ds.quads((T(pat[0]), T(pat[1]), T(pat[2]), gt))}
                 eq = {t + (k,) for t in real if match(pat, t)}
                 ctx.check(
